@@ -44,6 +44,8 @@ pub struct CaseCtx {
     /// primary addresses of set-up actors (while the set-up task still holds them)
     pub primary: RefCell<Vec<Option<AnyAddr>>>,
     pub streams: RefCell<Vec<crate::probe::StreamCtl>>,
+    /// virtual time of the last client-side event (progress detection for the run phase)
+    pub last_client_time: Cell<u64>,
 }
 
 thread_local! {
@@ -83,6 +85,7 @@ impl CaseCtx {
             outside: RefCell::new(Vec::new()),
             primary: RefCell::new(Vec::new()),
             streams: RefCell::new(Vec::new()),
+            last_client_time: Cell::new(0),
         });
         // actor ids 0..n are the slots of the case
         for (slot, a) in case.actors.iter().enumerate() {
